@@ -75,6 +75,11 @@ def tasks(tier):
         ts.append(("SolidBodyNearlyIncompressible[%s]" % kind, "run_nearly", dict(kind=kind)))
     for bk in ("SolidBody", "SolidBodyNearlyIncompressible"):
         ts.append(("state variables[%s]" % bk, "run_state_consistency", dict(body_kind=bk)))
+    # matrix and vector differentiate one function only if the material's gradient / hessian do not re-use intermediates of an earlier call at
+    # another state (Newton assembles vector then matrix at one state, but several bodies may share one material object)
+    for fname, kw in (("run_threefield", dict(blocks="grad+FF")), ("run_neohooke", dict(cfg="mu+bulk")), ("run_ogden", dict(case="unloading"))):
+        ts.append(("material evaluation history %s" % fname, "run_included", dict(modname="c03", fname=fname, kwargs=kw, oid="C01.O1h", select_oid="C03.O1h",
+                                                                                why="the assembled matrix is the derivative of the assembled vector only if both evaluate the material as a function of the current state alone")))
     ts.append(("loads", "run_loads", {}))
     ts.append(("multipoint", "run_multipoint", {}))
     ts.append(("pressure+cauchy", "run_surface", {}))
@@ -307,3 +312,9 @@ def run_multiplier(col):
 def run_formitem(col):
     from . import c01_items
     c01_items.run_formitem(col)
+
+
+def run_included(col, modname, fname, kwargs, oid, why, select_oid=None):
+    from ..common import include
+
+    include(col, modname, fname, kwargs, oid, why, select_oid=select_oid)
